@@ -456,7 +456,7 @@ def run(chk):
             lines, viols = run_history(evs)
             hists.append((evs, lines, viols))
         rng = chk.rng.fork("c17-hist")
-        for h in range(120 if chk.quick else 1500):
+        for h in range(400 if chk.quick else 5000):
             evs, lines, viols = generate_and_run(rng.fork(h), rng.range(8, 40), rng.range(1, 4))
             hists.append((evs, lines, viols))
     for hi, (evs, lines, viols) in enumerate(hists):
